@@ -119,12 +119,20 @@ def run(ctx):
         elif init == "array_const":
             a = npr.normal(size=(n, nc)).astype(np.float32); a[:, 0] = 2.0; kw["init"] = a
         else: kw["init"] = init
-        D = sp.csr_matrix(X) if sparse else X
-        desc = dict(X=X, sparse=sparse, data_kind=kind, init_kind=init, **{k: v for k, v in kw.items()})
+        # container / dtype / layout of the input rotate with the trial: the same values are the same data
+        if sparse:
+            fmt = ["csr32", "csr64", "csc", "coo", "lil"][trial % 5]
+            D = {"csr32": lambda: sp.csr_matrix(X), "csr64": lambda: sp.csr_matrix(X.astype(np.float64)), "csc": lambda: sp.csc_matrix(X),
+                 "coo": lambda: sp.coo_matrix(X), "lil": lambda: sp.lil_matrix(X)}[fmt]()
+        else:
+            fmt = ["c32", "f64", "fortran32", "list", "int64" if kind in ("ints", "binary") else "c32", "noncontiguous"][trial % 6]
+            D = {"c32": lambda: X, "f64": lambda: X.astype(np.float64), "fortran32": lambda: np.asfortranarray(X), "list": lambda: X.tolist(),
+                 "int64": lambda: X.astype(np.int64), "noncontiguous": lambda: np.repeat(X, 2, axis=1)[:, ::2]}[fmt]()
+        desc = dict(X=X, sparse=sparse, input_format=fmt, data_kind=kind, init_kind=init, **{k: v for k, v in kw.items()})
         if fc and "disc" in fc: desc["disconnection_distance"] = fc["disc"]
         tags = [t for t, f in ((kind, kind != "gauss"), ("isolated_samples", kind in ("iso_binary", "outlier")), ("init_" + init, init != "spectral"), ("sparse", sparse), ("unique", unique), ("n<=k", n_fit <= kw["n_neighbors"]),
                                ("tiny_n", n == nc + 2), ("epochs0", kw["n_epochs"] == 0), ("lr~0", kw["learning_rate"] < 1), ("one_feature", d == 1)) if f]
-        ctx.tag(("grid", trial), tags); ctx.count("init_" + init); ctx.count("metric_" + metric)
+        ctx.tag(("grid", trial), tags + ["input_" + fmt]); ctx.count("init_" + init); ctx.count("metric_" + metric); ctx.count("input_" + fmt)
         try:
             m = umap.UMAP(**kw); e = m.fit_transform(D)
         except Exception as ex:
